@@ -128,8 +128,13 @@ func (p *Parser) parseNotationInComments(notations []*ast.Comment, validOps map[
 			if len(args) < 2 {
 				return logger.Errorf("%v: needs <dst> <literal> args", p.fset.Position(n.Pos()))
 			}
-			m = reLiteral.FindStringSubmatch(m[2])
-			setter := option.NewLiteralSetter(args[0], m[1], n.Pos())
+			lit := reLiteral.FindStringSubmatch(m[2])
+			if lit == nil {
+				// The arguments are separated by a space that strings.Fields honours but \s does not
+				// (NBSP, vertical tab, ideographic space, ...).
+				return logger.Errorf("%v: needs <dst> <literal> args separated by ASCII spaces", p.fset.Position(n.Pos()))
+			}
+			setter := option.NewLiteralSetter(args[0], lit[1], n.Pos())
 			opts.Literals = append(opts.Literals, setter)
 		case "preprocess":
 			if len(args) < 1 {
